@@ -209,10 +209,10 @@ def replay_family(rep, path, run):
     return rc
 
 
-RULE = ("22 element types (basics incl. +0/-0 floats, bool and complex128, named basics incl. a named bool, []byte / named []byte / []string / [2]int elements with nil, empty and different-length inner slices whose lexicographic order differs from the derived length-first order, comparable struct, pointers to structs incl. recursive and "
-        "imported, slices, struct with pointers; more on thorough) and 6 key types x a boundary-biased list pool per type "
+RULE = ("27 element types (basics incl. +0/-0 floats, bool and complex128, named basics incl. a named bool, []byte / named []byte / []string / [2]int elements with nil, empty and different-length inner slices whose lexicographic order differs from the derived length-first order, comparable struct, pointers to structs incl. recursive and "
+        "imported, slices, struct with pointers, named floats inside non-comparable elements; more on thorough) and 9 key types (incl. float32 / float64 / named float / complex128 keyed maps with one and two NaN keys among ordinary keys, zeros and infinities: keys ops only) x a boundary-biased list pool per type "
         "(nil, empty, singleton, duplicates fresh and aliased, both orders of pairs, all 6 orders of triples, Equal-but-not-identical "
-        "variants, whole pool / reversed / sorted / reverse-sorted, nil elements, seeded random lists up to length 7 (12 thorough)); "
+        "variants, for slice-typed elements prefix views of ONE backing array with different lengths mixed with independent copies and nil, whole pool / reversed / sorted / reverse-sorted, nil elements, seeded random lists up to length 7 (12 thorough)); "
         "sort on every list, min/max on every list with two defaults, min2/max2 on all ordered pool pairs and identity variants, keys on "
         "nil/empty/singleton/both-insertion-order/larger maps; distinct = distinct op lines whose containers hold >= 2 elements in "
         "total (two-value forms: the arguments differ)")
